@@ -213,6 +213,8 @@ var staleAllowed = map[string]struct {
 	n   int
 	why string
 }{
+	"align.(*align).Mask":           {1, "rep: the majority character, recomputed for every column in MAJ mode (some count is positive as soon as there is a row) and constant otherwise"},
+	"align.(*align).MaskOccurences": {1, "rep: as in Mask"},
 	"align.(*align).Frameshifts":    {1, "start of the current run of frameshifted columns: set when a run opens, read when it closes"},
 	"align.(*seqbag).TrimNamesAuto": {1, "length of the generated identifiers: grows when the current width is exhausted"},
 	"cmd.var samplesitesCmd$1":      {1, "output name, recomputed per sample when several files are written"},
